@@ -17,6 +17,14 @@ CHECKS = {
    text="LList.tla models linkedlist.Buffer as the list of segment lengths over FIFO-normal-form content; TLC checks no-empty-node / count invariants over all operation sequences within the bounds; every labelled edge is replayed on a real linkedlist.Buffer, including the copy semantics of PushBack/PushFront (the harness scribbles over its slice after the call).",
    note="Trusted: TLC, Go toolchain, scripted reader/writer alphabet. Bounds: <= 4 segments, <= 12 units of 128 bytes, plus byte sizes around 512 to depth 3.",
    tech="TLA+ spec + TLC exhaustive; transition-cover replay of the TLC state graph into the real object"),
+ "C12": dict(cat="model_checking", ref="DESIGN.md §4 C12, §3.7",
+   text="Pools.tla is an ownership ledger of the byte-slice pool and the ring-buffer pool (arrays, handed-out slices, pooled regions per size class, sync.Pool free to drop or return anything); TLC checks no-alias / within-bounds invariants over all Get/Put/Drop interleavings; recorded histories of the real pools (single and multi goroutine, across GCs, tail re-slices, foreign and zero-capacity slices), with regions normalised to (array, offset, len, cap), are validated against the spec by TLC with every invariant evaluated at every event.",
+   note="Trusted: TLC; the harness keeps all arrays alive so addresses identify arrays; sizes up to 2^20 (class arithmetic to 2^31 is covered by C20).",
+   tech="TLA+ ledger spec + TLC exhaustive; trace validation of recorded pool histories (PoolsTrace.tla)"),
+ "C14": dict(cat="model_checking", ref="DESIGN.md §4 C14, §3.6",
+   text="ConnMatrix.tla transcribes addConn/delConn/getConn/iterate of the compacting registry (table, reverse index, per-connection position, next-slot pointer, per-row counts); TLC checks faithful-map, count, density and coherence invariants over all add/remove/lookup/iterate sequences; every labelled edge is replayed on the real registry of both builds (gc_opt matrix and default map), also with the real matrix pre-filled so that operations straddle the 65536-entry row boundary.",
+   note="Trusted: TLC, Go toolchain. Model dimensions 2x3 (quick) / 3x3 (thorough) stand for 256x65536; observables (lookups of every descriptor, count, visited multiset) are compared, positions are not.",
+   tech="TLA+ spec + TLC exhaustive; transition-cover replay of the TLC state graph into the real object (both build variants)"),
 }
 NOT_YET = {}
 for i in range(1, 21):
